@@ -295,3 +295,44 @@ def origins(fn, e, stop=None, depth=0, seen=None):
             continue
         out |= origins(fn, c, stop, depth + 1, seen)
     return out
+
+
+def bool_leaves(fn, cond, depth=0):
+    """Leaf conditions a boolean expression is built from, looking through !, &&, ||, ?: and through bool locals that have
+    exactly one source (`const bool saturated = a.size() == b.size(); ... if (saturated || x)`)."""
+    c = strip(cond)
+    if c is None or depth > 6:
+        return []
+    k = c['k']
+    if k == 'UnaryOperator' and c.get('op') == '!':
+        return bool_leaves(fn, c['ch'][0], depth + 1)
+    if k == 'BinaryOperator' and c.get('op') in ('&&', '||'):
+        return bool_leaves(fn, c['ch'][0], depth + 1) + bool_leaves(fn, c['ch'][1], depth + 1)
+    if k == 'ConditionalOperator':
+        return [x for ch in c['ch'] for x in bool_leaves(fn, ch, depth + 1)]
+    if k == 'DeclRefExpr' and c.get('dk') == 'local':
+        v = var_table(fn).get(c.get('d'))
+        if v and v['kind'] == 'local' and v['decl'].get('scalar'):
+            srcs = local_sources(fn, c['d'])
+            if len(srcs) == 1:
+                sub = bool_leaves(fn, srcs[0], depth + 1)
+                if sub and not (len(sub) == 1 and sub[0] is strip(srcs[0]) and sub[0]['k'] not in ('BinaryOperator', 'CXXMemberCallExpr', 'CXXOperatorCallExpr', 'CallExpr')):
+                    return sub
+    return [c]
+
+
+def callee_view(unit, fn, c):
+    """(param decl ids, body node, cfg, actual args) of a call to a local lambda or to an in-repo function whose body was exported"""
+    if c['k'] == 'CXXOperatorCallExpr' and c.get('op') == '()' and c.get('args'):
+        d = (strip(c['args'][0]) or {}).get('d') if (strip(c['args'][0]) or {}).get('k') == 'DeclRefExpr' else None
+        v = var_table(fn).get(d) if d is not None else None
+        if v and v['kind'] == 'local' and is_node(v['decl'].get('init')):
+            lam = strip(v['decl']['init'])
+            if lam is not None and lam['k'] == 'LambdaExpr' and is_node(lam.get('body')):
+                return [p['d'] for p in lam.get('params') or []], lam['body'], fn.lambda_cfg(lam), c['args'][1:]
+        return None
+    if c['k'] in ('CallExpr', 'CXXMemberCallExpr') and c.get('inrepo') and c.get('cd') is not None:
+        g = unit.by_decl.get(c['cd'])
+        if g is not None and g.body is not None and g is not fn:
+            return [p['d'] for p in g.params], g.body, g.cfg(), c.get('args') or []
+    return None
